@@ -9,6 +9,7 @@ import (
 	"reflect"
 	"regexp"
 	"strings"
+	"unsafe"
 )
 
 // bltn type defines functions which run at CFG execution.
@@ -121,20 +122,24 @@ func (interp *Interpreter) run(n *node, cf *frame) {
 	runCfg(n.start, f, n, nil)
 }
 
+// execID returns the identity of the closure exec. The code pointer returned by
+// reflect.Value.Pointer does not identify it: it is shared by all the closures
+// produced by the same generator.
+func execID(exec bltn) unsafe.Pointer {
+	return *(*unsafe.Pointer)(unsafe.Pointer(&exec))
+}
+
 func isExecNode(n *node, exec bltn) bool {
 	if n == nil || n.exec == nil || exec == nil {
 		return false
 	}
 
-	a1 := reflect.ValueOf(n.exec).Pointer()
-	a2 := reflect.ValueOf(exec).Pointer()
-	return a1 == a2
+	return execID(n.exec) == execID(exec)
 }
 
 // originalExecNode looks in the tree of nodes for the node which has exec,
 // aside from n, in order to know where n "inherited" that exec from.
 func originalExecNode(n *node, exec bltn) *node {
-	execAddr := reflect.ValueOf(exec).Pointer()
 	var originalNode *node
 	seen := make(map[int64]struct{})
 	root := n
@@ -158,7 +163,7 @@ func originalExecNode(n *node, exec bltn) *node {
 			if wn.exec == nil {
 				return true
 			}
-			if reflect.ValueOf(wn.exec).Pointer() == execAddr {
+			if isExecNode(wn, exec) {
 				originalNode = wn
 				return false
 			}
